@@ -3,6 +3,7 @@
 package main
 
 import (
+	"bytes"
 	"fmt"
 	"net"
 	"runtime"
@@ -110,9 +111,19 @@ func rrState() string {
 	return fmt.Sprintf("idx=%d list=%s keys=%s index=%s", idx, hxJoin(list), hxJoin(sortedKeys(keys)), hxJoin(sortedKeys(vRRIndex.index)))
 }
 
+// Quiescence after a resolution outcome: the resolver hands the change to `go notifyAddressChanged(...)`.
+// The goroutine exists as soon as addressResolved returns, so "no goroutine has notifyAddressChanged on its
+// stack" is exactly "every notification has been delivered". (Counting goroutines is not: the process has
+// other goroutines that come and go, e.g. the resolver's own DNS lookups.)
 func waitGoroutines(base int) {
-	deadline := time.Now().Add(2 * time.Second)
-	for runtime.NumGoroutine() > base && time.Now().Before(deadline) {
+	deadline := time.Now().Add(5 * time.Second)
+	buf := make([]byte, 1<<20)
+	for time.Now().Before(deadline) {
+		n := runtime.Stack(buf, true)
+		// (a goroutine that has not run yet shows only its wrapper and the "created by ...addressResolved" line)
+		if !bytes.Contains(buf[:n], []byte("notifyAddressChanged")) && !bytes.Contains(buf[:n], []byte("DynamicHostResolver).addressResolved")) {
+			return
+		}
 		runtime.Gosched()
 		time.Sleep(50 * time.Microsecond)
 	}
